@@ -15,23 +15,28 @@ PROPERTY = "C19"
 READY = True
 STATEFUL = True
 THEOREMS = [
-    "C19.std_shape",
+    "C19.std_shape", "C19.decl_syntax",
     "C19.closure", "C19.build_ok_iff", "C19.declare_order_irrelevant",
-    "C19.options_iff", "C19.added_to_all",
-    "C19.command_dispatch", "C19.parse_accepts", "C19.parse_rejects", "C19.std_accepted", "C19.accepts_iff",
-    "C19.default_is_first_public", "C19.default_cmd_partial", "C19.internal_name_gap",
+    "C19.options_iff", "C19.added_to_all", "C19.add_ok_iff",
+    "C19.command_dispatch", "C19.parse_accepts", "C19.parse_rejects", "C19.parse_rejects_short", "C19.std_accepted",
+    "C19.accepts_iff",
+    "C19.default_is_first_public", "C19.default_cmd_partial", "C19.default_cmd_full_if_public_test",
+    "C19.internal_name_gap",
     "C19.default_cmd_internal_name_counterexample",
 ]
-RULE = ("one case = one ArgParser: declarations (chains, forests, diamonds, redundant and repeated parents, '!' sets, "
-        "whitespace/empty pieces in the parent list; malformed: unknown/forward/self parents, duplicate and empty names), "
-        "0-7 add_argument calls (ArgParser itself, public and internal parsers; flags, value options, positionals; "
-        "some conflicting), then argv per (public command, option string) plus random argv (std options, =value forms, "
-        "words, unknown options, no command name, -h). non-trivial = a successfully built parser with >= 1 parent edge, "
-        ">= 1 option added to a command parser and >= 2 parse lines; distinct by protocol text")
+RULE = ("one case = one ArgParser: declarations (chains, forests, diamonds, dense DAGs, a parent given together with its own "
+        "ancestor, repeated parents, '!' sets; blanks of 13 kinds / empty pieces in the parent list; malformed: "
+        "unknown/forward/self parents, duplicate and empty names, no commands, all internal, bad default), 0-7 add_argument "
+        "calls (ArgParser itself, public and internal parsers, unknown command; flags, value options, positionals; a stream "
+        "with conflicting strings), then argv per (public command, option string) plus random argv (std options, =value "
+        "forms, words, unknown options, no command name, unknown first word, -h), 2+ cases with an internal name first "
+        "(known finding), every strip() candidate character. non-trivial = a successfully built parser with >= 1 parent "
+        "edge, >= 1 option added to a command parser and >= 2 parse lines; distinct by protocol text")
 TRUSTED = ["argparse (option matching inside one parser; modelled for exact option strings, --opt=value and words only)"]
-ASSUMPTIONS = ["option strings are pairwise prefix-free (no argparse abbreviation can apply); hypothesis `NoAbbrev` of "
-               "C19.parse_rejects, guaranteed by the generator's pool (asserted) and reported as `ood` by the driver otherwise",
-               "argv strings are fresh objects (argparse's mutual-exclusion test compares values with `is`)"]
+ASSUMPTIONS = ["option strings in play are pairwise prefix-free, so no argparse abbreviation applies (hypotheses `hab` of "
+               "C19.parse_rejects / C19.accepts_iff; asserted for the generator's pool; the driver answers `ood` otherwise)",
+               "argv strings are fresh objects (argparse's mutual-exclusion test compares values with `is`)",
+               "after a failed add_argument the ArgParser object is abandoned (both sides answer `poisoned`)"]
 
 HELP_FIRST_DEFAULT = ["-h", "--help"]
 
@@ -433,6 +438,20 @@ def _fmt_ns(cmd, ns):
     return "ok " + " ".join("%s=%s" % (enc_str(k), _show_val(v)) for k, v in sorted(d.items()))
 
 
+def _ns_mismatch(cmd, ns, rep):
+    """None when the reply is a namespace holding every attribute the statement predicts with the predicted value
+    (further attributes — e.g. of standard options added to the source later — are not the statement's business)"""
+    if not rep.startswith("ok"):
+        return "no namespace"
+    got = dict(item.split("=", 1) for item in rep.split()[1:])
+    want = dict(ns)
+    want["command"] = cmd
+    for k, v in sorted(want.items()):
+        if got.get(enc_str(k)) != _show_val(v):
+            return "attribute %s is %s, not %s" % (k, got.get(enc_str(k), "absent"), _show_val(v))
+    return None
+
+
 def oracle(case, replies):
     lines = case["lines"]
     if not lines or not lines[0].startswith("new "):
@@ -506,9 +525,9 @@ def oracle(case, replies):
                 if not rep.startswith("err SystemExit"):
                     return "rejects: command %r must reject %r, got %s" % (cmd, rest, rep)
             else:
-                want = _fmt_ns(cmd, exp[1])
-                if rep != want:
-                    return "accepts: command %r with %r must give %s, got %s" % (cmd, rest, want, rep)
+                bad = _ns_mismatch(cmd, exp[1], rep)
+                if bad:
+                    return "accepts: command %r with %r must give %s, got %s (%s)" % (cmd, rest, _fmt_ns(cmd, exp[1]), rep, bad)
     return None
 
 
@@ -549,7 +568,8 @@ def _render_decl(rng, name, internal, parents, sloppy):
                 ps.insert(rng.randrange(len(ps) + 1), rng.choice(ps))       # repeated parent
             if rng.random() < 0.3:
                 ps.insert(rng.randrange(len(ps) + 1), rng.choice(["", " ", "\t"]))   # empty piece
-            ps = [rng.choice(["", " ", "  ", "\t"]) + p + rng.choice(["", " ", " \t"]) for p in ps]
+            ps = [rng.choice(["", " ", "  ", "\t", "\x0b", "\x1f", "\xa0", "\u2003"]) + p + rng.choice(["", " ", " \t", "\u3000", "\x0c"])
+                  for p in ps]
         s += ":" + ",".join(ps)
     return s
 
@@ -775,9 +795,27 @@ def _c19b_cases():
     yield case(["!o", "a:o", "b"], [("o", "pos", ["files"]), ("o", "flag", ["--fa"])], [["o", "--fa"], ["o"]])
 
 
+WS = [9, 10, 11, 12, 13, 28, 29, 30, 31, 32, 0x85, 0xa0, 0x1680] + list(range(0x2000, 0x200b)) + [
+    0x2028, 0x2029, 0x202f, 0x205f, 0x3000]
+
+
+def _ws_cases(rng, tier):
+    """which characters `strip()` removes around a parent: every code point below U+3100 in thorough, the blanks and
+    a sample of the others in quick"""
+    if tier == "quick":
+        cps = WS + [0, 1, 8, 14, 27, 33, 0x200b, 0x200c, 0x2060, 0xfeff, 0x180e] + [rng.randrange(1, 0x3100) for _ in range(120)]
+    else:
+        cps = [c for c in list(range(0, 0x3100)) + [0xfeff, 0x1d7ce, 0xe0020] if not 0xd800 <= c <= 0xdfff]
+    for c in cps:
+        yield {"lines": ["new - 97 " + enc_str("b:" + chr(c) + "a" + chr(c)), _parse_line(["b"])],
+               "meta": {"kind": "strip-char"}}
+
+
 def gen_cases(rng, tier):
     n = 5000 if tier == "quick" else 100000
     for c in _c19b_cases():
+        yield c
+    for c in _ws_cases(rng, tier):
         yield c
     for i in range(n):
         r = rng.random()
@@ -821,7 +859,14 @@ def search_cases(rng, tier):
 def shrink(case):
     lines = case["lines"]
     meta = case.get("meta", {})
-    # drop parse lines, then opt lines
+    parses = [i for i, l in enumerate(lines) if l.startswith("parse")]
+    # big steps first: keep a single parse line (and no `deps`), or none at all
+    if len(parses) > 1 or "deps" in lines:
+        base = [l for l in lines if not l.startswith("parse") and l != "deps"]
+        for i in parses:
+            yield {"lines": base + [lines[i]], "meta": meta}
+        yield {"lines": base, "meta": meta}
+    # drop single lines
     for i in range(len(lines) - 1, 0, -1):
         if lines[i].startswith("parse") or lines[i].startswith("opt") or lines[i] == "deps":
             yield {"lines": lines[:i] + lines[i + 1:], "meta": meta}
@@ -835,10 +880,25 @@ def shrink(case):
         if any(l.startswith("opt " + enc_str(nm) + " ") for l in lines):
             continue
         yield {"lines": [" ".join(head[:2] + decls[:i] + decls[i + 1:])] + lines[1:], "meta": meta}
+    # drop one parent of one declaration
+    for i, d in enumerate(decls):
+        ds = dec_str(d)
+        if ":" in ds:
+            h, par = ds.split(":", 1)
+            ps = par.split(",")
+            for j in range(len(ps)):
+                rest = ps[:j] + ps[j + 1:]
+                nd = h + (":" + ",".join(rest) if rest else "")
+                yield {"lines": [" ".join(head[:2] + decls[:i] + [enc_str(nd)] + decls[i + 1:])] + lines[1:], "meta": meta}
+    # no explicit default command
+    if head[1] != "-":
+        yield {"lines": [" ".join([head[0], "-"] + decls)] + lines[1:], "meta": meta}
     # shorten argv
     for i, l in enumerate(lines):
         if l.startswith("parse"):
             toks = l.split()[1:]
+            if len(toks) > 2:
+                yield {"lines": lines[:i] + [" ".join(["parse"] + toks[:1])] + lines[i + 1:], "meta": meta}
             for j in range(len(toks) - 1, -1, -1):
                 yield {"lines": lines[:i] + [" ".join(["parse"] + toks[:j] + toks[j + 1:])] + lines[i + 1:], "meta": meta}
 
@@ -868,18 +928,25 @@ def tags(case, replies):
             yield "parse:" + " ".join(r.split()[:3] if r.startswith("err") else r.split()[:1])
 
 
-LEVEL_TEXT = ("Kernel-checked for all declaration lists, all option placements and the stated argv shapes, on the model the "
-              "driver executes: eager registration yields exactly the transitive closure of the declared parent relation and "
-              "fails exactly on malformed lists (closure, build_ok_iff); a command parser's option table is the standard options "
-              "plus the options placed on the ArgParser, on the command or on one of its ancestors (options_iff, accepts_iff, "
-              "added_to_all, std_accepted); `[cmd, option]` is parsed iff the option is in that table (parse_accepts, "
-              "parse_rejects); argv not starting with a known name is parsed as the default command, which is the first public "
-              "command (default_cmd, default_is_first_public). Standard options and the first-argument test are regenerated "
-              "from ak/cli_tools.py on every run. model = code by a differential run (construction outcome, full namespace or "
-              "SystemExit code per argv) and an independent oracle computing ancestors from the declarations.")
-LEVEL_NOTE = ("argparse's scan of one parser is modelled (not verified) for exact option strings, --opt=value and words; "
-              "abbreviations, -xyz clusters and '--' are out of the model (driver answers `ood`, generator never produces them). "
-              "The code's first-argument test uses all parser names, internal ones included (known finding c19b, theorem "
-              "internal_name_gap states the code's behaviour). Trusted: Lean kernel, translator/adapter/oracle in harness/c19.py, "
-              "sampled correspondence.")
-TECHNIQUE = "Lean 4 theorems (induction over the declaration list, transitive closure) + translator for std options + correspondence check"
+LEVEL_TEXT = ("Kernel-checked for all declaration lists, all histories of add_argument calls and the stated argv shapes, on the "
+              "model the driver executes: the documented declaration syntax is read back exactly (decl_syntax); eager registration "
+              "yields exactly the transitive closure of the declared parent relation, in every reachable state, and the "
+              "constructor fails exactly on malformed lists, always with AssertionError (closure, build_ok_iff, "
+              "declare_order_irrelevant); a parser's option table is the standard options plus the options placed on the "
+              "ArgParser, on the parser or on one of its ancestors (options_iff, added_to_all); add_argument fails only on "
+              "a real clash of option strings or an unknown command (add_ok_iff); `[cmd, option]` is parsed iff the option "
+              "is in the command's table, else SystemExit(2) (parse_accepts, parse_rejects(_short), accepts_iff end to end); "
+              "the standard options are accepted by every command (std_accepted); argv not starting with the name of a "
+              "declared parser is parsed as the default command = first public command (default_cmd_partial, "
+              "default_is_first_public, command_dispatch). Standard options and the first-argument test are regenerated "
+              "from ak/cli_tools.py on every run. model = code by a differential run (construction outcome, full namespace "
+              "or SystemExit code per argv) and an oracle that computes ancestors from the declarations independently.")
+LEVEL_NOTE = ("default_cmd is `_partial`: the code also keeps a first word that names an internal '!' option set (known finding "
+              "c19b; internal_name_gap and default_cmd_internal_name_counterexample state the code's behaviour, "
+              "default_cmd_full_if_public_test the full statement under the two-line repair). argparse's scan of one parser is "
+              "modelled, not verified, for exact option strings, --opt=value and words; abbreviations, -xyz clusters and '--' "
+              "are outside the model (driver answers `ood`; never generated). Value-option and namespace-content clauses beyond "
+              "[cmd, option(, word)] rest on the correspondence only. Trusted: Lean kernel, translator/adapter/oracle in "
+              "harness/c19.py, sampled correspondence.")
+TECHNIQUE = ("Lean 4 theorems (induction over the declaration list, transitive closure, option-table invariant over histories) + "
+             "translator for the standard options and the first-argument test + correspondence check")
